@@ -526,7 +526,8 @@ Error CodeHolder::new_section(Out<Section*> section_out, const char* name, size_
   ASMJIT_PROPAGATE(_sections.reserve_additional(_arena));
   ASMJIT_PROPAGATE(_sections_by_order.reserve_additional(_arena));
 
-  Section* section = _arena.alloc_oneshot<Section>();
+  // Zeroed, so that the name is NUL terminated (and padded) whatever the arena memory held before.
+  Section* section = _arena.alloc_oneshot_zeroed<Section>(Arena::aligned_size_of<Section>());
   if (ASMJIT_UNLIKELY(!section)) {
     return make_error(Error::kOutOfMemory);
   }
